@@ -131,6 +131,9 @@ func (i *interpreter) initPackage(pkg *ssa.Package) {
 		return
 	}
 	initFn := pkg.Func("init")
+	if initFn != nil && initFn.Blocks == nil {
+		ensureBuilt(initFn)
+	}
 	if initFn == nil || initFn.Blocks == nil {
 		return
 	}
@@ -596,8 +599,14 @@ func callSSA(i *interpreter, caller *frame, callpos token.Pos, fn *ssa.Function,
 			}
 		}
 		if fn.Blocks == nil {
+			ensureBuilt(fn)
+		}
+		if fn.Blocks == nil {
 			panic(pathEnd{peUnsupported, "no code for function: " + name})
 		}
+	}
+	if fn.Blocks == nil {
+		ensureBuilt(fn)
 	}
 	if i.trace {
 		fmt.Fprintf(os.Stderr, "%*sEntering %s\n", exDepth(), "", fn)
@@ -766,4 +775,28 @@ func panicValue(i *interpreter, p interface{}) value {
 	default:
 		panic(fmt.Sprintf("unexpected panic type %T in target call to recover()", p))
 	}
+}
+
+var builtPkgs = map[*ssa.Package]bool{}
+
+// ensureBuilt builds the SSA bodies of fn's package on first use.
+func ensureBuilt(fn *ssa.Function) {
+	f := fn
+	for f.Parent() != nil {
+		f = f.Parent()
+	}
+	if o := f.Origin(); o != nil {
+		f = o
+	}
+	pkg := f.Pkg
+	if pkg == nil {
+		if f.Object() != nil && f.Object().Pkg() != nil {
+			pkg = fn.Prog.Package(f.Object().Pkg())
+		}
+	}
+	if pkg == nil || builtPkgs[pkg] {
+		return
+	}
+	builtPkgs[pkg] = true
+	pkg.Build()
 }
